@@ -58,6 +58,9 @@ type Spelling struct {
 	Trail string   `json:"trail,omitempty"` // trailing C0/space
 	// EmptyFrag: write a bare '#' when the URL has no fragment
 	EmptyFrag bool `json:"empty_frag,omitempty"`
+	// HostEnc[i] is the encoding depth of the i-th character of a domain host (letters, digits,
+	// hyphens and dots are unreserved characters too); the nested levels re-encode only the '%'
+	HostEnc []int `json:"host_enc,omitempty"`
 }
 
 type DotIns struct {
@@ -203,6 +206,25 @@ var dotStyles = [][2]string{{".", ".."}, {"%2e", "%2e%2e"}, {"%2E", ".%2E"}, {"%
 // profiles that do not decode); dotMaxStyle limits how dot segments may be spelled (2 = literal and
 // single-level %2e only).
 func (w WebURL) Render(sp Spelling, maxDepth int, allowNestedDots bool, allowEmptyFrag bool) string {
+	return w.RenderH(sp, maxDepth, 0, allowNestedDots, allowEmptyFrag)
+}
+
+// isDomainHost: not an IPv6 literal and not a dotted number (their characters are not spelled with escapes here).
+func isDomainHost(h string) bool {
+	if h == "" || h[0] == '[' {
+		return false
+	}
+	for i := 0; i < len(h); i++ {
+		if (h[i] < '0' || h[i] > '9') && h[i] != '.' {
+			return true
+		}
+	}
+	return false
+}
+
+// RenderH is Render with percent-encoded host characters up to depth hostDepth (1: what the standard's
+// host parser decodes itself; more: what only a decoding profile with lax host parsing can read).
+func (w WebURL) RenderH(sp Spelling, maxDepth, hostDepth int, allowNestedDots bool, allowEmptyFrag bool) string {
 	st := &spellState{sp: &sp}
 	var sb strings.Builder
 	sb.WriteString(flipBy(w.Scheme, sp.SchemeCase))
@@ -214,7 +236,18 @@ func (w WebURL) Render(sp Spelling, maxDepth int, allowNestedDots bool, allowEmp
 		}
 		sb.WriteString("@")
 	}
-	sb.WriteString(flipBy(w.Host, sp.HostCase))
+	if host := flipBy(w.Host, sp.HostCase); hostDepth > 0 && len(sp.HostEnc) > 0 && isDomainHost(w.Host) {
+		for i := 0; i < len(host); i++ {
+			d := sp.HostEnc[i%len(sp.HostEnc)]
+			if d > hostDepth {
+				d = hostDepth
+			}
+			lower := len(sp.Lower) > 0 && sp.Lower[i%len(sp.Lower)]
+			sb.WriteString(encodeChar(host[i], d, lower, 0))
+		}
+	} else {
+		sb.WriteString(host)
+	}
 	if w.Port != "" {
 		sb.WriteString(":" + w.Port)
 	} else {
@@ -418,6 +451,15 @@ func GenSpelling(t *rapid.T, label string, rich bool) Spelling {
 				d = rapid.IntRange(1, 3).Draw(t, label+".depth")
 			}
 			sp.Enc = append(sp.Enc, d)
+		}
+		if rapid.IntRange(0, 2).Draw(t, label+".hostenc") == 0 {
+			for i, n := 0, rapid.IntRange(1, 7).Draw(t, label+".hostencn"); i < n; i++ {
+				d := 0
+				if rapid.IntRange(0, 2).Draw(t, label+".hostenc?") == 0 {
+					d = rapid.IntRange(1, 3).Draw(t, label+".hostdepth")
+				}
+				sp.HostEnc = append(sp.HostEnc, d)
+			}
 		}
 		sp.Lower = bools(".lower", 5)
 		sp.Partial = make([]int, 4)
